@@ -168,7 +168,9 @@ var c13bodies = []c13body{
 	}},
 	{"f.LLString", false, func(m *ir.Module) string { return c13firstDef(m).LLString() }},
 	{"f2.LLString", false, func(m *ir.Module) string { return c13lastDef(m).LLString() }},
-	{"g.LLString", true, func(m *ir.Module) string { return m.Globals[0].LLString() + "|" + m.Globals[len(m.Globals)-1].LLString() }},
+	{"g.LLString", true, func(m *ir.Module) string {
+		return m.Globals[0].LLString() + "|" + m.Globals[len(m.Globals)-1].LLString()
+	}},
 	{"b.LLString", true, func(m *ir.Module) string { return c13firstDef(m).Blocks[0].LLString() }},
 	{"inst.LLString+Ident+Type", true, func(m *ir.Module) string {
 		var sb strings.Builder
@@ -295,18 +297,18 @@ type c13viol struct {
 }
 
 type c13result struct {
-	Scenario  string     `json:"scenario"`
-	Execs     int        `json:"execs"`
-	Points    int64      `json:"points"`
-	MaxLen    int        `json:"max_len"`
-	Capped    bool       `json:"capped"`
-	Bound     int        `json:"bound"`
-	Outcomes  int        `json:"outcomes"`
-	Viols     []c13viol  `json:"violations"`
-	Error     string     `json:"error,omitempty"`
-	Sample    []int      `json:"sample_schedule,omitempty"`
-	RaceBuild bool       `json:"race_build"`
-	Threads   int        `json:"threads"`
+	Scenario  string    `json:"scenario"`
+	Execs     int       `json:"execs"`
+	Points    int64     `json:"points"`
+	MaxLen    int       `json:"max_len"`
+	Capped    bool      `json:"capped"`
+	Bound     int       `json:"bound"`
+	Outcomes  int       `json:"outcomes"`
+	Viols     []c13viol `json:"violations"`
+	Error     string    `json:"error,omitempty"`
+	Sample    []int     `json:"sample_schedule,omitempty"`
+	RaceBuild bool      `json:"race_build"`
+	Threads   int       `json:"threads"`
 }
 
 type c13replay struct {
